@@ -532,6 +532,102 @@ theorem pass_two (f g : Nat) (hfg : f ≠ g) (RF RG : EdgeSt → EdgeSt → Prop
 
 end passes
 
+section passesGen
+variable {α : Type} (op : Nat → State → State) (π : State → α) (P : State → Prop)
+variable (hP : ∀ n s, P s → P (op n s))
+include hP
+
+theorem passG_inv : ∀ (l : List Nat) (s : State), P s → P (l.foldl (fun s n => op n s) s) := by
+  intro l
+  induction l with
+  | nil => intro s h; exact h
+  | cons x xs ih => intro s h; exact ih _ (hP x s h)
+
+/-- Nodes that do not touch the edge leave its record alone. -/
+theorem passG_none (f g : Nat)
+    (hother : ∀ n s, P s → n ≠ f → n ≠ g → π (op n s) = π s) :
+    ∀ (l : List Nat) (s : State), P s → f ∉ l → g ∉ l →
+      π (l.foldl (fun s n => op n s) s) = π s := by
+  intro l
+  induction l with
+  | nil => intro s _ _ _; rfl
+  | cons x xs ih =>
+    intro s h hf hg
+    simp only [List.foldl_cons]
+    rw [ih _ (hP x s h) (fun hm => hf (by simp [hm])) (fun hm => hg (by simp [hm]))]
+    exact hother x s h (fun hx => hf (by simp [hx])) (fun hx => hg (by simp [hx]))
+
+/-- Exactly one visit by `g` (and none by `f`): the record undergoes `g`'s action. -/
+theorem passG_one (f g : Nat) (R : α → α → Prop)
+    (hother : ∀ n s, P s → n ≠ f → n ≠ g → π (op n s) = π s)
+    (hg : ∀ s, P s → R (π s) (π (op g s))) :
+    ∀ (l : List Nat) (s : State), P s → l.Nodup → f ∉ l → g ∈ l →
+      R (π s) (π (l.foldl (fun s n => op n s) s)) := by
+  intro l
+  induction l with
+  | nil => intro s _ _ _ hg'; simp at hg'
+  | cons x xs ih =>
+    intro s h hnd hf hgm
+    have hnd' := List.nodup_cons.mp hnd
+    simp only [List.foldl_cons]
+    by_cases hx : x = g
+    · subst hx
+      rw [passG_none op π P hP f x hother xs _ (hP x s h) (fun hm => hf (by simp [hm])) hnd'.1]
+      exact hg s h
+    · have hm : g ∈ xs := by
+        rcases List.mem_cons.mp hgm with h' | h'
+        · exact absurd h'.symm hx
+        · exact h'
+      have := ih _ (hP x s h) hnd'.2 (fun hm' => hf (by simp [hm'])) hm
+      rw [hother x s h (fun hx' => hf (by simp [hx'])) hx] at this
+      exact this
+
+/-- One visit by `f` followed (later in the sequence) by one visit by `g`. -/
+theorem passG_two (f g : Nat) (hfg : f ≠ g) (RF RG : α → α → Prop)
+    (hother : ∀ n s, P s → n ≠ f → n ≠ g → π (op n s) = π s)
+    (hf : ∀ s, P s → RF (π s) (π (op f s)))
+    (hg : ∀ s, P s → RG (π s) (π (op g s))) :
+    ∀ (l : List Nat) (s : State), P s → l.Nodup → f ∈ l → g ∈ l → l.idxOf f < l.idxOf g →
+      ∃ mid, RF (π s) mid ∧ RG mid (π (l.foldl (fun s n => op n s) s)) := by
+  intro l
+  induction l with
+  | nil => intro s _ _ hf' _ _; simp at hf'
+  | cons x xs ih =>
+    intro s h hnd hfm hgm hidx
+    have hnd' := List.nodup_cons.mp hnd
+    simp only [List.foldl_cons]
+    by_cases hxf : x = f
+    · subst hxf
+      have hgx : g ∈ xs := by
+        rcases List.mem_cons.mp hgm with h' | h'
+        · exact absurd h'.symm hfg
+        · exact h'
+      refine ⟨π (op x s), hf s h, ?_⟩
+      -- in the rest only g touches the edge; swap roles: "f" of pass_one is x (absent)
+      exact passG_one op π P hP x g RG hother hg xs _ (hP x s h) hnd'.2 hnd'.1 hgx
+    · by_cases hxg : x = g
+      · subst hxg
+        simp [List.idxOf_cons] at hidx
+      · have hfx : f ∈ xs := by
+          rcases List.mem_cons.mp hfm with h' | h'
+          · exact absurd h'.symm hxf
+          · exact h'
+        have hgx : g ∈ xs := by
+          rcases List.mem_cons.mp hgm with h' | h'
+          · exact absurd h'.symm hxg
+          · exact h'
+        have hidx' : xs.idxOf f < xs.idxOf g := by
+          have b1 : (x == f) = false := by simpa using hxf
+          have b2 : (x == g) = false := by simpa using hxg
+          simp only [List.idxOf_cons, b1, b2] at hidx
+          simpa using hidx
+        obtain ⟨mid, m1, m2⟩ := ih _ (hP x s h) hnd'.2 hfx hgx hidx'
+        rw [hother x s h hxf hxg] at m1
+        exact ⟨mid, m1, m2⟩
+
+end passesGen
+
+
 /-! ### exogenous inputs, next-period initialisation, costs -/
 
 theorem stateOK_modEdge (st : State) (x : Nat) (f : EdgeSt → EdgeSt)
